@@ -155,10 +155,13 @@ def subset(from_table: {str: int}, name: str, parents: [int] = None) -> {}:
     if parents:
         for parent in parents:
             surname = construct(name, parent)
+            # exactly this name, in any version: a longer name that merely
+            # begins with it belongs to somebody else
             result.update(
                 dict(
                     filter(
-                        lambda t, sn=surname: t[0].startswith(sn),
+                        lambda t, sn=surname: t[0] == sn
+                        or t[0].startswith(sn + '___version:'),
                         from_table.items(),
                     )
                 )
